@@ -722,15 +722,14 @@ class EqPathParallelSpecFinder(
             return True
         if children1 == () == children2:
             return self._atom_path_match(id1, id2, sp1, sp2)
+        order = matching_info[(id1, id2)].get((children1, children2))
+        if order is None:
+            # The rules were assigned to id1 and id2 with other partners and
+            # do not match each other.
+            return False
         mem.add((id1, id2))
         for j2, ((j1, child1), child2) in enumerate(
-            zip(
-                (
-                    (i, children1[i])
-                    for i in matching_info[(id1, id2)][(children1, children2)]
-                ),
-                children2,
-            )
+            zip(((i, children1[i]) for i in order), children2)
         ):
             self._path.append((id1, id2, j1, j2))
             check_descendant = self._validate_atoms_for_existing_entries(
